@@ -126,8 +126,11 @@ func DecodePointer(reader io.Reader) (*Pointer, error) {
 // blob's data will be returned, along with a parse error.
 func DecodeFrom(reader io.Reader) (*Pointer, io.Reader, error) {
 	buf := make([]byte, blobSizeCutoff)
-	n, err := reader.Read(buf)
+	n, err := io.ReadFull(reader, buf)
 	buf = buf[:n]
+	if err == io.ErrUnexpectedEOF {
+		err = io.EOF
+	}
 
 	var contents io.Reader = bytes.NewReader(buf)
 	if err != io.EOF {
